@@ -753,7 +753,7 @@ fn scenarios(tier: Tier) -> Vec<Scenario> {
         one(vec![f(&[0], 0), f(&[1], 2), f(&[2], 0)]),
         Scenario {
             family: "inject".into(),
-            sessions: vec![SessionSpec { files: vec![f(&[0, 1, 2], 0), f(&[3, 4], 0)], order: vec![0, 1, 0, 1, 0, 1, 0, 1], salt: 0, foreign: false }],
+            sessions: vec![SessionSpec { files: vec![f(&[0, 1, 2], 0), f(&[3, 4], 0)], order: vec![0, 1, 0, 1, 0, 1, 0, 1], salt: 0, foreign: false, foreign_no_cache: false }],
         },
         Scenario {
             family: "inject".into(),
@@ -766,6 +766,9 @@ fn scenarios(tier: Tier) -> Vec<Scenario> {
     let conc = |files: Vec<FileSpec>| Scenario { family: "inject-conc".into(), sessions: vec![SessionSpec::seq(files)] };
     v.push(conc(vec![f(&[0, 1, 2], 0), f(&[3, 4, 5], 0)]));
     v.push(conc(vec![f(&[0, 1], 0), f(&[0, 1], 0)]));
+    // a finish that has to cut the session aggregate while the only upload permit is held by a pending mid-file
+    // upload, and a file without any new chunk (empty) finishing in that window
+    v.push(conc(vec![f(&[0, 1, 2], 0), f(&[3, 4], 0), f(&[], 0)]));
     // persist mode: after an operation of a file fails the driver abandons that file only and goes on with the
     // other files and with finalize (the public API does not prevent it); the ordering clause "a shard is handed
     // to the store only after every xorb its file records reference has been stored" must hold there too
@@ -799,7 +802,7 @@ fn scenarios(tier: Tier) -> Vec<Scenario> {
             one(vec![f(&[0], 0), f(&[1], 0), f(&[2], 0), f(&[3], 0), f(&[4], 0)]),
             Scenario {
                 family: "inject".into(),
-                sessions: vec![SessionSpec { files: vec![f(&[0, 1], 0), f(&[0, 1], 0)], order: vec![0, 1, 0, 1, 0, 1], salt: 0, foreign: false }],
+                sessions: vec![SessionSpec { files: vec![f(&[0, 1], 0), f(&[0, 1], 0)], order: vec![0, 1, 0, 1, 0, 1], salt: 0, foreign: false, foreign_no_cache: false }],
             },
             Scenario {
                 family: "inject".into(),
@@ -984,7 +987,12 @@ fn main() {
     } else {
         for cfg in configs(args.tier) {
             for scn in scenarios(args.tier) {
-                if fault_free && (scn.sessions.last().map(|s| s.files.len()).unwrap_or(0) < 2 || scn.family == "inject-persist" || (args.tier == Tier::Quick && cfg.name != "I2-uploads2")) {
+                if fault_free && (scn.sessions.last().map(|s| s.files.len()).unwrap_or(0) < 2 || scn.family == "inject-persist" || (args.tier == Tier::Quick && cfg.name != "I2-uploads2" && !(cfg.name == "I1-uploads1" && scn.family == "inject-conc"))) {
+                    continue;
+                }
+                // the three-file concurrent scenario is there for the fault-free interleaving checks; with injected
+                // failures (C16) and for C14x it runs in the thorough tier only
+                if !fault_free && args.tier == Tier::Quick && scn.family == "inject-conc" && scn.sessions.last().map(|s| s.files.len()).unwrap_or(0) >= 3 {
                     continue;
                 }
                 // C14x judges successful sessions only, so it needs no injected failure (and no persisting driver)
